@@ -8,11 +8,13 @@
    - C03_prune_is_filter_partial: a hereditary predicate as preprune, as prune or in both
      places yields the unpruned output filtered by the predicate, in the same order;
    - C03_yields_wellformed_partial: every yielded value is a well-formed graph on n vertices;
-   - C03_recursive_presentation_partial: the iterative machine computes the depth-first
-     recursive presentation [spec];
+   - C03_recursive_presentation_partial: the iterative machine and the depth-first recursive
+     presentation [spec] agree (both directions);
+   - C03_shards_terminate_partial, C03_prune_terminates_partial: if the unsplit / unpruned run
+     ends without panic then so do the shards / the pruned run;
    - C03_counting_partial (and Props/C03_cert.v): the orbit-counting certificate.
-   The theorems about runs are conditional on the runs ending without panic within the fuel
-   ([outputs .. = Ok L]); termination / panic-freedom of the model is not proved.
+   The theorems are relative to the unsplit, unpruned run ending without panic
+   ([outputs .. = Ok L]); that it always does (for a well-behaved [canon]) is not proved.
    NOT proved: that the unpruned, unsplit output is exactly one graph per isomorphism class
    (McKay's orderly generation relative to a correct [canon]); this is certified per n by the
    harness with the certificate theorem.  The model is tied to the code by co-simulation for
@@ -86,15 +88,42 @@ Example C03_wellformed_nonvacuous :
 Proof. exact wf_example. Qed.
 
 (* The iterative machine (explicit stacks choices / currentPath, in-place AddVertex /
-   RemoveVertex, cached automorphism group, resumption between calls) computes the recursive
-   depth-first presentation [spec] of ShardModel.v. *)
+   RemoveVertex, cached automorphism group, resumption between calls) and the recursive
+   depth-first presentation [spec] of ShardModel.v agree: the caller's loop ends without panic
+   with the list L, for some number of calls and fuel, exactly when spec = Some L. *)
 Theorem C03_recursive_presentation_partial :
-  forall grow canon ksub_reps preprune prune, canon_ignores_stale_bits canon ->
-  forall n a m calls fuel L,
-  outputs grow canon ksub_reps preprune prune calls fuel (init n a m) = Ok L ->
+  forall grow canon ksub_reps, canon_ignores_stale_bits canon ->
+  forall preprune prune n a m L,
+  (exists calls fuel, outputs grow canon ksub_reps preprune prune calls fuel (init n a m) = Ok L) <->
   spec canon ksub_reps preprune prune n a m = Some L.
-Proof. exact outputs_spec. Qed.
+Proof. exact outputs_iff_spec. Qed.
 Print Assumptions C03_recursive_presentation_partial.
+
+Example C03_recursive_presentation_nonvacuous :
+  spec canon0 ksub0 no_prune no_prune 4 1 2 =
+  match outs0 no_prune no_prune 4 1 2 with Ok l => Some l | _ => None end /\
+  len_res (outs0 no_prune no_prune 4 1 2) = 9.
+Proof. exact spec_example. Qed.
+
+(* If the unsplit search ends without panic then so does every shard; if the unpruned search
+   ends without panic then the pruned one ends without panic with the filtered output. *)
+Theorem C03_shards_terminate_partial :
+  forall grow canon ksub_reps, canon_ignores_stale_bits canon ->
+  forall preprune prune n m L a, 1 <= m -> a < m ->
+  (exists calls fuel, outputs grow canon ksub_reps preprune prune calls fuel (init n 0 1) = Ok L) ->
+  exists La calls fuel, outputs grow canon ksub_reps preprune prune calls fuel (init n a m) = Ok La.
+Proof. exact shards_terminate. Qed.
+Print Assumptions C03_shards_terminate_partial.
+
+Theorem C03_prune_terminates_partial :
+  forall grow canon ksub_reps, canon_ignores_stale_bits canon ->
+  forall P pre post n a m L, grows_bad P ->
+  (pre = P \/ pre = no_prune) -> (post = P \/ post = no_prune) -> (pre = P \/ post = P) ->
+  (exists calls fuel, outputs grow canon ksub_reps no_prune no_prune calls fuel (init n a m) = Ok L) ->
+  exists calls fuel, outputs grow canon ksub_reps pre post calls fuel (init n a m) =
+                     Ok (filter (fun g => negb (P g)) L).
+Proof. exact prune_terminates. Qed.
+Print Assumptions C03_prune_terminates_partial.
 
 (* The counting core of the completeness certificate applied by the harness: in a finite
    universe X with an equivalence R, a list Y of pairwise inequivalent members whose class
